@@ -803,6 +803,7 @@ package gomavlib
 //@ func (*endpointSerial).connect params (e) returns (conn, err)
 //@   requires e != nil
 //@   ensures  [opens-the-configured-device] logLen() == 1 && logCallee(0, "call:func-value") && logArgInt(0, 1) == int64(e.conf.Baud)
+//@   ensures  [a-device-or-an-error] err == nil ==> conn != nil
 //@   modifies ghost:log
 
 // ---------------------------------------------------------------- broadcast endpoint
